@@ -338,7 +338,7 @@ def alphabet_after(role, prefix):
 
 def run(ctx):
     warnings.simplefilter('ignore')
-    depth = 4 if ctx.thorough else 2
+    depth = 3 if ctx.thorough else 2
     ctx.rule = ('exhaustive DFS of all histories of up to %d further steps from each of 26 canonical prefixes that '
                 'reach every protocol state (both roles), over the alphabet {7 PDU kinds, complete / first / '
                 'continuing / last P-DATA fragments of messages received into a file (runs with own maximum 48 or 0) or in memory, unknown PDU type, peer close, each arriving after quiescence '
@@ -368,7 +368,7 @@ def run(ctx):
     parallel(ctx, run_dfs, jobs)
     ctx.label('dfs-jobs', len(jobs))
     if ctx.thorough:
-        parallel(ctx, shard_walks, [{'n': 6000} for _ in range(16)])
+        parallel(ctx, shard_walks, [{'n': 10000} for _ in range(16)])
     else:
         parallel(ctx, shard_walks, [{'n': 60} for _ in range(8)])
     cells = ctx.extra.get('cells', set())
